@@ -94,6 +94,8 @@ def c04_items(tier, rnd):
         # the full six-letter alphabet (incl. bound(..) and bound(Ty)) on a seeded sample of the 6^9 space
         for _ in range(3000 if tier == "quick" else 40000):
             Ps.append(nine_item(t, [rnd.choice(A9) for _ in range(9)], helper))
+            if rnd.random() < 0.3:
+                Ps[-1]["conc_ty"] = True
     # fields whose usage state suppresses the DEFAULT bound still contribute their explicit levels:
     # #[default(expr)] with bound(...), on structs and on the default variant of enums
     for ch in itertools.product(A4, repeat=4):
@@ -126,6 +128,21 @@ def c04_items(tier, rnd):
             P = six_item(t, ch, "struct")
             if t in ("Deref", "DerefMut"):
                 P["variants"][0]["fields"] = P["variants"][0]["fields"][:1]
+            Ps.append(P)
+            # now and then next to a second list (before / after) that derives another trait with a shared bound of its own
+            if len(Ps) % 9 == 0 and t not in ("Deref", "DerefMut"):
+                P2 = copy.deepcopy(P)
+                P2["other_list"] = {"pos": "before" if len(Ps) % 2 else "after", "t": "Debug" if t != "Debug" else "Clone", "dd": len(Ps) % 3 == 0}
+                Ps.append(P2)
+    for t in ("Clone", "PartialEq", "Hash", "Debug", "Default"):
+        for ch in itertools.product(A3, repeat=6):
+            if t in ("Debug", "Default"):
+                P = nine_item(t, list(ch[:3]) + ["absent"] * 3 + list(ch[3:]), {"Debug": "debug", "Default": "default"}[t])
+            else:
+                P = six_item(t, ch)
+                if t in cf.TRAITS:
+                    P["D"] = [t]
+            P["other_list"] = {"pos": "before" if (len(Ps) % 2) else "after", "t": "Copy" if t == "Clone" else "Clone", "dd": len(Ps) % 3 == 0}
             Ps.append(P)
     for t in cf.TRAITS:
         Ps += cmp_level_items(t, tier, rnd)
@@ -194,16 +211,24 @@ def c04(tier):
     rnd = random.Random(dx.seed())
     Ps = c04_items(tier, rnd)
     dx.log("C04: %d items" % len(Ps))
-    events, reqs, bad = judge_where(ck, "c04", Ps)
-    for i in bad:
-        e = events[i]
-        sig = bug_class(e["P"], e)
-        ck.violation(sig, {"what": "where-clause of the generated impl differs from DocWhere (nine-level priority)",
-                           "levels": level_sig(e["P"]), "request": reqs[i], "observed_tags": e["impls"], "nerr": e["nerr"]})
-    for i in (0, len(events) // 2, len(events) - 1):
-        ck.sample({"request": reqs[i]["item"][:300], "attr": reqs[i]["attr"], "observed_tags": events[i]["impls"]})
-    ck.cov["evaluations"] = len(events)
-    ck.cov["distinct_nontrivial"] = len(set(json.dumps(e["impls"]) + e["P"]["t"] for e in events))
+    # in batches: the thorough tier has about a million items (two expansions each); memory stays bounded
+    BATCH = 150000
+    nev, distinct = 0, set()
+    for b0 in range(0, len(Ps), BATCH):
+        events, reqs, bad = judge_where(ck, "c04", Ps[b0:b0 + BATCH])
+        for i in bad:
+            e = events[i]
+            sig = bug_class(e["P"], e)
+            ck.violation(sig, {"what": "where-clause of the generated impl differs from DocWhere (nine-level priority)",
+                               "levels": level_sig(e["P"]), "request": reqs[i], "observed_tags": e["impls"], "nerr": e["nerr"]})
+        if b0 == 0:
+            for i in (0, len(events) // 2, len(events) - 1):
+                ck.sample({"request": reqs[i]["item"][:300], "attr": reqs[i]["attr"], "observed_tags": events[i]["impls"]})
+        nev += len(events)
+        distinct |= set(json.dumps(e["impls"]) + e["P"]["t"] for e in events)
+        del events, reqs
+    ck.cov["evaluations"] = nev
+    ck.cov["distinct_nontrivial"] = len(distinct)
     ck.cov["rule"] = ("all assignments of the tier's alphabet to the nine levels (Debug, Default on enums), six levels (helper-less traits on enums), "
                       "four levels (struct-only traits), all assignments to the comparison helper chains at type/variant/field level and key/by cut-offs, "
                       "plus a seeded sample of the 7-letter alphabet; both entry points; distinct = distinct (trait, observed tag sets)")
@@ -425,6 +450,13 @@ def c03(tier):
     plist = sorted(progs.items())
     if tier == "quick" and len(plist) > 2500:
         plist = random.Random(dx.seed()).sample(plist, 2500)
+    # possibly unsized last fields (`?Sized` written inline, in a where-clause, as the last argument of a wrapper; str / slice tails):
+    # the default bounds never include `Sized`, so the generated bodies must not need it
+    for tag, traits, item in C20_SPECIAL:
+        if tag.startswith("unsized_") or tag.startswith("raw_param_unsized"):
+            head, _, rest = item.partition("\n")
+            P0 = {"t": traits.split(",")[0], "kind": "struct", "usage": tag, "variants": []}
+            plist.append(("#![allow(dead_code, unused)]\n#[::derive_ex::derive_ex(%s)] %s\n%s\n" % (traits, head, rest), P0))
 
     def comp(ix):
         i, (src, P) = ix
@@ -532,6 +564,17 @@ C20_SPECIAL = [
     ("self_nested_in_inline_eq", "Eq, PartialEq, Clone", "pub struct X<T: ::dx_support::Rel<::std::vec::Vec<Self>>> { pub a: T }"),
     ("self_nested_ops", "Neg, Add, SubAssign", "pub struct X<T: ::dx_support::Rel<::std::vec::Vec<Self>>>(pub T) where ::core::option::Option<Self>: ::core::marker::Sized;"),
     ("self_projection_where", "Eq, PartialEq, Neg", "pub struct X<T>(pub T) where <Self as ::dx_support::Tr>::Assoc: ::core::marker::Sized, Self: ::dx_support::Tr;"),
+    # `?Sized` relaxations written in every place a where-clause / parameter list allows
+    ("unsized_where_second_predicate", "Debug, PartialEq, Eq, Hash", "pub struct X<T> where T: ::core::fmt::Debug, T: ?::core::marker::Sized { pub a: u8, pub tail: T }"),
+    ("unsized_where_with_inline_bound", "Debug, PartialEq, PartialOrd", "pub struct X<T: ::core::cmp::PartialOrd>(pub u8, pub T) where T: ?::core::marker::Sized;"),
+    ("unsized_where_plus_other", "Debug, Hash", "pub struct X<'a, T: ::core::cmp::PartialEq + 'a>(pub &'a u8, pub T) where T: ?::core::marker::Sized + ::core::fmt::Display;"),
+    ("unsized_last_arg_of_wrapper", "Debug, PartialEq", "pub struct X<K, V: ?::core::marker::Sized> { pub a: u8, pub inner: Tagged<K, V> }\n#[derive(Debug, PartialEq)] pub struct Tagged<K, V: ?::core::marker::Sized>(pub K, pub V);"),
+    ("unsized_eq_tail_str", "Eq, PartialEq", "pub struct X { pub a: u8, pub tail: str }"),
+    ("unsized_eq_tail_param", "Eq, PartialEq, Ord, PartialOrd", "pub struct X<T: ?::core::marker::Sized>(pub u8, pub T);"),
+    ("deref_dyn_with_lifetime", "Deref, DerefMut", "pub struct X<'a>(pub dyn ::core::fmt::Debug + 'a);"),
+    ("deref_dyn_static", "Deref", "pub struct X { pub inner: dyn ::core::fmt::Debug + 'static }"),
+    ("key_mentions_self", "Eq, PartialEq, Hash", "pub struct X { #[eq(key = Self::k(&$))] pub a: f64, pub b: u8 }\nimpl X { fn k(v: &f64) -> i64 { *v as i64 } }"),
+    ("key_mentions_self_generic", "Ord, PartialOrd, Eq, PartialEq", "pub enum X<T> { A(#[ord(key = <Self>::k(&$))] T), B }\nimpl<T> X<T> { fn k(_v: &T) -> u8 { 0 } }"),
     # known findings D19 / D20 (see known_findings.json)
     ("deref_trait_object_field", "Deref, DerefMut", "pub struct X(pub dyn ::core::fmt::Debug);"),
     ("deref_trait_object_field_multi", "Deref", "pub struct X(pub dyn ::core::fmt::Debug + Send);"),
